@@ -77,6 +77,9 @@ class Tr:
             if isinstance(n.value, ast.Name) and env.get(n.value.id) == 'tupF3' \
                     and isinstance(n.slice, ast.Constant) and n.slice.value in (0, 1, 2):
                 return f'{n.value.id}_{n.slice.value}', 'F'
+            if isinstance(n.value, ast.Name) and isinstance(n.slice, ast.Name) \
+                    and env.get(n.value.id) == 'listZ' and env.get(n.slice.id) == 'listZ':
+                return f'(py_take {n.value.id} {n.slice.id})', 'listZ'      # x[idx] with an index vector
             fail(n, 'unsupported subscript')
         if isinstance(n, ast.UnaryOp) and isinstance(n.op, ast.USub):
             t, ty = self.expr(n.operand, env)
@@ -113,6 +116,22 @@ class Tr:
             return '[' + '; '.join(t for t, _ in items) + ']', 'listZ'
         if isinstance(n, ast.Call):
             return self.call(n, env)
+        if isinstance(n, ast.ListComp):
+            # [X[int(v)] for v in IDX]: the values of X at an index vector
+            if len(n.generators) == 1 and not n.generators[0].ifs and not n.generators[0].is_async \
+                    and isinstance(n.generators[0].target, ast.Name) and isinstance(n.elt, ast.Subscript) \
+                    and isinstance(n.elt.value, ast.Name):
+                v = n.generators[0].target.id
+                sl = n.elt.slice
+                is_v = (isinstance(sl, ast.Name) and sl.id == v) or \
+                       (isinstance(sl, ast.Call) and call_name(sl) == 'int' and len(sl.args) == 1
+                        and isinstance(sl.args[0], ast.Name) and sl.args[0].id == v)
+                if is_v:
+                    x, tx = self.expr(n.elt.value, env)
+                    idx, ti = self.expr(n.generators[0].iter, env)
+                    if tx == 'listZ' and ti == 'listZ':
+                        return f'(py_take {x} {idx})', 'listZ'
+            fail(n, 'unsupported list comprehension')
         fail(n, 'unsupported expression')
 
     def call(self, n, env):
@@ -431,6 +450,29 @@ def translate_slice(spec, tree):
                     base = base.value
                 if isinstance(base, ast.Name) and base.id in sliced_names:
                     fail(s, 'item/attribute assignment to a sliced name')
+    # an input (e.g. the shuffled group order) must not be mutated once the slice has started
+    started = False
+    for s in seq:
+        if s in selected:
+            started = True
+            continue
+        if not started:
+            continue
+        for c in ast.walk(s):
+            if isinstance(c, ast.Call):
+                nm = (call_name(c) or '').split('.')[-1]
+                touched = {a.id for a in list(c.args) + [k.value for k in c.keywords] if isinstance(a, ast.Name)}
+                if isinstance(c.func, ast.Attribute) and isinstance(c.func.value, ast.Name):
+                    touched.add(c.func.value.id)
+                if nm in MUTATORS and touched & params:
+                    fail(s, 'an input of the slice is mutated between its statements')
+        if names_stored(s) & params:
+            fail(s, 'an input of the slice is re-assigned between its statements')
+    # statements the slice relies on without translating them (e.g. where an input comes from)
+    have = [ast.unparse(s) for s in seq]
+    for want in spec.get('expected_stmts', []):
+        if want not in have:
+            raise Unsupported(f"{spec['func']}: expected statement not found: {want}")
     # the uses of the outputs (what the index vectors select) must be the expected ones
     uses = []
     for s in seq:
